@@ -71,6 +71,8 @@ NumBigOk(c) == IF BigIn(c) THEN BigGood(c) ELSE IF BigNear(c) THEN c.out = "conv
 NumF32Ok(c) == CASE c.zone = "in" -> Good(c) [] c.zone = "out" -> c.out = "conv" [] OTHER -> c.out = "conv" \/ Good(c)
 \* a value far beyond every declared range (infinities, NaN, 1e300, 10^400): rejected with the conversion error, whatever the type
 FarOk(c) == c.out = "conv"
+\* a whole number given as its decimal text (what home-automation front ends hand over) is treated exactly like the number
+StrOk(c) == c.same = 1
 NumOk(c) == CASE c.fam = "fix" -> NumFixOk(c) [] c.fam = "scaled8" -> NumScaledOk(c) [] c.fam = "f16" -> NumF16Ok(c)
               [] c.fam = "big" -> NumBigOk(c) [] c.fam = "f32" -> NumF32Ok(c) [] OTHER -> FALSE
 \* ---------------------------------------------------------------- C10
